@@ -336,6 +336,8 @@ def run(ctx):
     plans = [
         {"world": "equivocation", "sim": 3 if q else 20, "steps": 7 if q else 9, "avoid": True, "cap": 220 if q else 3000, "seeds": 1 if q else 2},
         {"world": "equivocation_heavy", "sim": 3 if q else 20, "steps": 7 if q else 9, "avoid": True, "cap": 220 if q else 3000, "seeds": 1 if q else 2},
+        # validator sets whose total power changes from height to height: the summary's available power follows the set
+        {"world": "valsets", "sim": 3 if q else 20, "steps": 7 if q else 9, "avoid": True, "cap": 200 if q else 3000, "seeds": 1 if q else 2},
     ]
     mcov, mismatches, inconcl = mirrorcheck.collect(ctx, {"C06"}, plans,
                                                     design_cfgs=[("Mirror_c06.cfg", {"MaxSteps": 4 if q else 5}, "C06_Recount on every reachable state of the equivocation world")])
